@@ -2,6 +2,7 @@ package c01
 
 import (
 	"encoding/json"
+	"reflect"
 	"testing"
 
 	"pgregory.net/rapid"
@@ -71,6 +72,13 @@ func TestJSONRoundTrip(t *testing.T) {
 			}
 			if d := serixgen.EqualJSON(c.Root, v, md.Value); d != "" {
 				violation(rt, check, c, v, ex, "map-decoded value differs: %s", d)
+			}
+			// the same value handed over as a struct instead of a pointer to it (nothing below is addressable then); the two
+			// documents are compared as JSON values: the order of the keys of an encoded Go map is not part of the form
+			jv := c.JSONEncodeByValue(v, validate)
+			var byValue map[string]any
+			if jv.Panic != nil || jv.Err != nil || json.Unmarshal(jv.Bytes, &byValue) != nil || !reflect.DeepEqual(byValue, m) {
+				violation(rt, check, c, v, ex, "JSONEncode of the struct passed by value differs from JSONEncode of a pointer to it: %s (err %v, panic %v)", jv.Bytes, jv.Err, jv.Panic)
 			}
 			done++
 		}
